@@ -93,7 +93,10 @@ def cmd? (kind : String) (args : List B) : Option Cmd :=
     if k.startsWith "search-" then (crit? (k.drop 7).toString as).map (Cmd.search false) else none
 
 def resultStr : Result → String
-  | .ok => "ok" | .no => "no" | .bad => "bad" | .err => "err"
+  | .ok => "ok" | .no => "no" | .bad => "bad" | .err => "err" | .hang => "err"
+
+def statusStr : Result → String
+  | .err => "eof" | .hang => "timeout" | _ => "done"
 
 def failStr : ClientSyntaxSpec.Fail → String
   | .badLiteralHeader => "bad-literal-header" | .bareCR => "bare-cr" | .bareLF => "bare-lf"
@@ -139,10 +142,30 @@ def handle (f : List String) : String :=
         match exec adv enabled (if en == "1" then 2 else 1) c sc with
         | none => s!"{id}\t1\t{orc}\tunmodelled"
         | some o =>
-          let mstatus := if o.result = .err then "eof" else "done"
+          let mstatus := statusStr o.result
           let agree := o.wire == w && o.acts == ia && mstatus == status && resultStr o.result == result
           s!"{id}\t{boolStr agree}\t{orc}\t{showOutcome o.wire o.acts mstatus (resultStr o.result)}"
     | _, _, _, _ => s!"{id}\t0\tfail:bad-line\t-"
+  | [id, "seq", caps, en, kind0, args0, script0, kind, args, script, wire, acts, status, result] =>
+    let adv := caps? caps
+    let enabled : List Cap := if en == "1" then [.utf8Accept] else []
+    match (splitOnChar args0 '|').mapM unrle?, script0.toList.mapM act?,
+          (splitOnChar args '|').mapM unrle?, script.toList.mapM act?, unrle? wire, acts? acts with
+    | some as0, some sc0, some as, some sc, some w, some ia =>
+      let srv : ClientSyntaxSpec.Server := { adv := adv, enabled := enabled }
+      let conts := (ia.filter fun x => x.2 = .cont).map (·.1)
+      let refusals := (ia.filter fun x => x.2 ≠ .cont).map (·.1)
+      let orc := verdictStr (ClientSyntaxSpec.check srv conts refusals (status == "eof") w)
+      match cmd? kind0 as0, cmd? kind as with
+      | some c0, some c =>
+        match execSeq adv enabled (if en == "1" then 2 else 1) c0 sc0 c sc with
+        | none => s!"{id}\t1\t{orc}\tunmodelled"
+        | some o =>
+          let mstatus := statusStr o.result
+          let agree := o.wire == w && o.acts == ia && mstatus == status && resultStr o.result == result
+          s!"{id}\t{boolStr agree}\t{orc}\t{showOutcome o.wire o.acts mstatus (resultStr o.result)}"
+      | _, _ => s!"{id}\t0\tfail:bad-line\t-"
+    | _, _, _, _, _, _ => s!"{id}\t0\tfail:bad-line\t-"
   | id :: _ => s!"{id}\t0\tfail:bad-line\t-"
   | [] => "?\t0\tfail:bad-line\t-"
 
